@@ -53,9 +53,9 @@ type In struct {
 	From2 string `json:"from2"`
 	Dkim  []DK   `json:"dkim"`
 	Spf   struct {
-		V  string `json:"v"`
-		D  string `json:"d"`
-		ID string `json:"id"`
+		V    string `json:"v"`
+		Mf   string `json:"mf"`   // MAIL FROM domain, "" = null reverse-path
+		Helo string `json:"helo"` // HELO domain (client-chosen)
 	} `json:"spf"`
 	Order string `json:"order"`
 	Adkim string `json:"adkim"`
@@ -187,14 +187,8 @@ func resultsOf(in In) []authres.Result {
 	for _, d := range in.Dkim {
 		dk = append(dk, &authres.DKIMResult{Value: authres.ResultValue(d.V), Domain: d.D, Identifier: ""})
 	}
-	spf := &authres.SPFResult{Value: authres.ResultValue(in.Spf.V)}
-	if in.Spf.ID == "helo" {
-		// null reverse-path: the HELO identity is the SPF identity
-		spf.Helo = in.Spf.D
-	} else {
-		spf.From = in.Spf.D
-		spf.Helo = "client.helo.invalid"
-	}
+	// as check.spf fills it: both names are always present in the entry
+	spf := &authres.SPFResult{Value: authres.ResultValue(in.Spf.V), From: in.Spf.Mf, Helo: in.Spf.Helo}
 	if in.Order == "spf_first" {
 		return append([]authres.Result{spf}, dk...)
 	}
@@ -389,8 +383,12 @@ func runRow(t *testing.T, w *world, r Row) (o out) {
 	id := fmt.Sprintf("row%d", r.ID)
 	w.chk.rows.Store(id, results)
 	defer w.chk.rows.Delete(id)
+	mailFrom := ""
+	if in.Spf.Mf != "" {
+		mailFrom = "bounce@" + in.Spf.Mf
+	}
 	meta := &module.MsgMetadata{ID: id, DontTraceSender: true, SMTPOpts: smtp.MailOptions{},
-		OriginalFrom: "bounce@" + in.Spf.D}
+		OriginalFrom: mailFrom}
 	d, err := w.pipe.Start(ctx, meta, meta.OriginalFrom)
 	if err != nil {
 		t.Fatalf("row %d: Start: %v", r.ID, err)
